@@ -549,9 +549,9 @@ TRUSTED = ["harness/h_C20.cpp: real MidiMappernRT + MidiMapperRT, rt_cb / fronte
            "dispatched through MidiMapperRT::ports, backend messages decoded by hand; one forked child per case",
            "tools/props/C20.py spec_walk: the property text as a checker over (history, records) - tracks learn queue, "
            "assignments on both sides and 7-bit values, never an index",
-           "Section hypotheses of C20_bijection_*_partial: rounding to float/double is monotone, exact on the bounds and "
-           "0, and has relative error <= 2^-24 / 2^-53 on the operands that occur (IEEE 754 facts, not proved here for "
-           "the executable rnd; the correspondence run compares rnd's results with the hardware bit for bit)"]
+           "Flocq 4.x (Core, Calc.Round/Bracket, Prop.Relative/Plus_error) and the standard library's real numbers under "
+           "C20_bijection_range / _monotone / _monotone_7bit (axioms: ClassicalDedekindReals.sig_forall_dec, sig_not_dec, "
+           "Classical_Prop.classic, functional_extensionality_dep); the float model has no overflow / NaN / -0.0"]
 ASSUMPTIONS = ["controller values are 7-bit (0..127); port bounds are finite floats far from overflow, min <= max, integer "
                "bounds for 'i' ports; every mapped address exists in the port table and has min/max metadata",
                "at most 32 distinct controllers have a learn in flight (PendingQueue capacity)",
@@ -568,15 +568,15 @@ LEVEL_TEXT = ("For every history (unbounded) of map/unMap/clear/CC/deliveries th
               "(C20_learn_oldest_partial: first controller of an address), unMap removes exactly the controller "
               "(C20_unmap_stops), no entry => no message (C20_unassigned_silent), bind installs the snapshot (C20_bind_installs); "
               "every callback sends to its own address a value in [min,max] that grows with the 14-bit input "
-              "(C20_bijection_*_partial, from stated IEEE rounding facts). The unrestricted statement is refuted by a computed "
+              "(C20_bijection_range/_monotone/_monotone_7bit, for the executable rounding, proved equal to Flocq's round-to-nearest-even). The unrestricted statement is refuted by a computed "
               "witness (C20_refuted = D19, reproduced on the code, known finding). All theorems closed under the global context.")
 LEVEL_NOTE = ("Stage 2: the system invariant Inv (inv_map / mapping / callback / value vectors and every snapshot consistent) is "
               "preserved by every event of a quiescent history and makes every step defined (C20_inv_init, C20_inv_step, "
               "C20_quiescent_crash_free_partial); C20_learn_oldest covers the second controller of an address; "
               "C20_refines_spec_partial: records of the model = records of the abstract specification (finite map + FIFO) on "
-              "every quiescent history, up to the value a message carries.  "
-              "Not proved: preservation of the 14-bit composition across cloneValues (value part of the refinement), "
-              "and the rounding facts for the executable rnd; both are covered by the "
+              "every quiescent history, values included (stage 3: cloneValues keeps the 14-bit composition).  "
+              "The bound of 32 controllers is tight (C20_capacity_refuted, outside the property's quantifier).  "
+              "Not modelled: float overflow / NaN / -0.0.  Also checked on every run by the "
               "correspondence run (model = code on every generated history incl. all placements of <=3/<=5 deliveries into short "
-              "histories, every state field compared) and the independent Spec oracle only. Side condition = classifier "
+              "histories, every state field compared) and the independent Spec oracle. Side condition = classifier "
               "bind-crosses-use-cc. See notes/C20.md.")
